@@ -25,7 +25,6 @@ structure H where
   failAt : Nat
   dialFail : Nat
   abortAt : Nat
-  cut : Option Nat
   qs : Array Q
 
 def hex16 (x : UInt64) : String :=
@@ -82,13 +81,13 @@ def mkCfg (sync : Bool) (qs : List Q) : Cfg Nat :=
     sync }
 
 /-- the server side of one connection: `Pipeline.run` on the schedule of the K line followed by
-    `completion`; the state is used only if the three checks of `Pipeline.c10_run_checked` hold for this
+    `completion`; the state is used only if the two checks of `Pipeline.c10_run_checked` hold for this
     very run (otherwise the driver answers `model-unchecked`, which never matches the implementation) -/
 def serve? (sync : Bool) (sched : List Act) (qs : List Q) : Option (St Nat) :=
   let cfg := mkCfg sync qs
   let acts := sched ++ completion (4 * qs.length + 8)
   let s := run cfg init acts
-  if noExt acts && doneB cfg s && !s.dropped then some s else none
+  if noExt acts && doneB cfg s then some s else none
 
 /-- a state nothing matches: used when the checks fail -/
 def unchecked : St Nat := { (init : St Nat) with wire := [1000000007] }
@@ -96,19 +95,7 @@ def unchecked : St Nat := { (init : St Nat) with wire := [1000000007] }
 def serve (sync : Bool) (sched : List Act) (qs : List Q) : St Nat :=
   (serve? sync sched qs).getD unchecked
 
-/-- the schedule of the known finding "close drops the backlog": from response `i` on the kernel stops
-    taking bytes (the tail part of response i and everything behind it is queued); the job of the first
-    closing request finishes with the queue non-empty and the close releases it -/
-def serveCut (sync : Bool) (i : Nat) (qs : List Q) : St Nat :=
-  let n := qs.length
-  let job (k : Nat) : List Act :=
-    if k < i then [.start, .write none, .write none, .finish]
-    else if k == i then [.start, .write none, .write (some 0), .finish]
-    else [.start, .write none, .write none, .finish]
-  run (mkCfg sync qs) init (List.replicate n Act.parse ++ (List.range n).flatMap job)
-
 def answeredIn (s : St Nat) (i : Nat) : Bool := s.wire.contains (2 * i) && s.wire.contains (2 * i + 1)
-def partialIn (s : St Nat) (i : Nat) : Bool := s.wire.contains (2 * i) && !s.wire.contains (2 * i + 1)
 def answeredCount (s : St Nat) : Nat := s.wire.length / 2
 
 /-- split a history into the connections a reconnecting client (net/http, nbhttp.Client pool) uses:
@@ -131,19 +118,10 @@ def outcome0 (sync : Bool) (h : H) : List String :=
     let lines := fun (s : St Nat) => qs.mapIdx fun i q =>
       if answeredIn s i then
         answeredLine h.cid q (if 2 * (i + 1) == s.wire.length && s.closed then "1" else "0") "x"
-      else if partialIn s i && s.dropped then s!"R {q.rid} bad=truncated cb=x"
       else s!"R {q.rid} none cb=x"
     if h.abortAt > 0 then
       lines (serve sync h.sched qs) ++ (h.qs.toList.drop (h.abortAt - 1)).map fun q => s!"R {q.rid} none cb=x"
-    else
-    let s := match h.cut with
-      | some i => serveCut sync i qs
-      | none => serve sync h.sched qs
-    qs.mapIdx fun i q =>
-      if answeredIn s i then
-        answeredLine h.cid q (if 2 * (i + 1) == s.wire.length && s.closed then "1" else "0") "x"
-      else if partialIn s i && s.dropped then s!"R {q.rid} bad=truncated cb=x"
-      else s!"R {q.rid} none cb=x"
+    else lines (serve sync h.sched qs)
   | "nbc" =>
     -- the first `dialFail` Do calls fail to dial (no connection, `closeWithErrorWithoutLock`); the server
     -- sees the history from the first request that got a connection
@@ -198,8 +176,7 @@ def outcome0 (sync : Bool) (h : H) : List String :=
 def allChecked (sync : Bool) (h : H) : Bool :=
   let qs := h.qs.toList
   match h.kind with
-  | "raw" => h.cut.isSome ||
-      (serve? sync h.sched (if h.abortAt > 0 then qs.take (h.abortAt - 1) else qs)).isSome
+  | "raw" => (serve? sync h.sched (if h.abortAt > 0 then qs.take (h.abortAt - 1) else qs)).isSome
   | "nbc" => (serve? sync h.sched (qs.drop (min h.dialFail qs.length))).isSome
   | "nbx" => (serve? sync h.sched (qs.drop (min h.failAt qs.length + 1))).isSome
   | "std" | "nbcli" =>
@@ -265,11 +242,10 @@ partial def loop (h : IO.FS.Stream) (s : DS) : IO Unit := do
         let got := ((Drv.field ws "got").bind String.toNat?).getD 0
         let lost := (((Drv.field ws "lost").getD "").splitOn ",").filterMap String.toNat?
         let failAt := ((Drv.field ws "fail").bind String.toNat?).getD 0
-        let cut := (Drv.field ws "cut").bind String.toNat?
         let dialFail := ((Drv.field ws "dialfail").bind String.toNat?).getD 0
         let abortAt := ((Drv.field ws "abort").bind String.toNat?).getD 0
         IO.println "ok"
-        loop h { s with cur := some { cid, kind, sched, got, lost, failAt, dialFail, abortAt, cut, qs := #[] } }
+        loop h { s with cur := some { cid, kind, sched, got, lost, failAt, dialFail, abortAt, qs := #[] } }
       else
         IO.println "bad-op"
         loop h s
